@@ -23,28 +23,45 @@ Fixpoint table_regex (tb : rx_table) (pattern t : text) : option (list text) :=
   | (p, x, r) :: rest => if text_eqb p pattern && text_eqb x t then r else table_regex rest pattern t
   end.
 Definition no_ext (id : N) (args : list value) : res := NoFuel.          (* never compared *)
+Definition no_frac_pow (a b : dec) : dec := Dec 0 0.                     (* non-integral powers: kind only *)
 
 Definition corr_functions : list (text * fname) := [
+  ([97; 98; 115]%N, FAbs)   (* abs *);
+  ([97; 110; 100]%N, FAnd)   (* and *);
   ([97; 114; 114; 97; 121]%N, FArray)   (* array *);
+  ([98; 111; 111; 108; 101; 97; 110]%N, FBoolean)   (* boolean *);
   ([99; 104; 97; 114]%N, FChar)   (* char *);
+  ([99; 111; 110; 99; 97; 116]%N, FConcat)   (* concat *);
+  ([99; 111; 117; 110; 116]%N, FCount)   (* count *);
   ([100; 97; 116; 101; 95; 102; 114; 111; 109; 95; 112; 97; 114; 116; 115]%N, FDateFromParts)   (* date_from_parts *);
   ([100; 97; 116; 101; 116; 105; 109; 101; 95; 97; 100; 100]%N, FDateTimeAdd)   (* datetime_add *);
+  ([100; 101; 102; 97; 117; 108; 116]%N, FDefault)   (* default *);
   ([101; 120; 116; 114; 97; 99; 116; 95; 111; 98; 106; 101; 99; 116]%N, FExtractObject)   (* extract_object *);
   ([102; 105; 101; 108; 100]%N, FField)   (* field *);
   ([102; 111; 114; 101; 97; 99; 104]%N, FForEach)   (* foreach *);
   ([102; 111; 114; 109; 97; 116; 95; 110; 117; 109; 98; 101; 114]%N, FFormatNumber)   (* format_number *);
   ([104; 97; 115; 95; 103; 114; 111; 117; 112]%N, FHasGroup)   (* has_group *);
+  ([105; 102]%N, FIf)   (* if *);
+  ([105; 115; 95; 101; 114; 114; 111; 114]%N, FIsError)   (* is_error *);
+  ([106; 111; 105; 110]%N, FJoin)   (* join *);
   ([109; 97; 120]%N, FMax)   (* max *);
   ([109; 101; 97; 110]%N, FMean)   (* mean *);
   ([109; 105; 110]%N, FMin)   (* min *);
   ([109; 111; 100]%N, FMod)   (* mod *);
+  ([110; 117; 109; 98; 101; 114]%N, FNumber)   (* number *);
   ([111; 98; 106; 101; 99; 116]%N, FObject)   (* object *);
+  ([111; 114]%N, FOr)   (* or *);
   ([112; 101; 114; 99; 101; 110; 116]%N, FPercent)   (* percent *);
   ([114; 101; 112; 101; 97; 116]%N, FRepeat)   (* repeat *);
   ([114; 101; 112; 108; 97; 99; 101]%N, FReplace)   (* replace *);
+  ([114; 101; 118; 101; 114; 115; 101]%N, FReverse)   (* reverse *);
   ([114; 111; 117; 110; 100]%N, FRound)   (* round *);
   ([114; 111; 117; 110; 100; 95; 100; 111; 119; 110]%N, FRoundDown)   (* round_down *);
   ([114; 111; 117; 110; 100; 95; 117; 112]%N, FRoundUp)   (* round_up *);
+  ([115; 117; 109]%N, FSum)   (* sum *);
+  ([116; 101; 120; 116]%N, FText)   (* text *);
+  ([116; 101; 120; 116; 95; 99; 111; 109; 112; 97; 114; 101]%N, FTextCompare)   (* text_compare *);
+  ([116; 101; 120; 116; 95; 108; 101; 110; 103; 116; 104]%N, FTextLength)   (* text_length *);
   ([116; 101; 120; 116; 95; 115; 108; 105; 99; 101]%N, FTextSlice)   (* text_slice *);
   ([116; 105; 109; 101; 95; 102; 114; 111; 109; 95; 112; 97; 114; 116; 115]%N, FTimeFromParts)   (* time_from_parts *);
   ([119; 111; 114; 100]%N, FWord)   (* word *);
@@ -92,10 +109,10 @@ Record case := Case { c_target : target; c_impl : impl_res }.
 Definition run (rx : rx_table) (t : target) : res :=
   match t with
   | TCall f args => call_function ascii_wclass (table_regex rx) no_ext f args
-  | TOp op a b => eval_binop op a b
+  | TOp op a b => eval_binop no_frac_pow op a b
   | TNeg a => eval_neg a
   | TLookup c l dot => resolve_lookup c l dot
-  | TEval ctx e => eval ascii_wclass (table_regex rx) no_ext corr_lookup ctx e
+  | TEval ctx e => eval ascii_wclass (table_regex rx) no_ext no_frac_pow corr_lookup ctx e
   end.
 
 Definition agrees (r : res) (i : impl_res) : bool :=
